@@ -25,6 +25,8 @@ CLAIMED = {
          "trusted: sort.Search extern, xxhash determinism, options install 1<=prime<=2^31. Not decided: sharded containers == unsharded (composition with C01/C02/C04 contracts)."),
  "C18": ("proof", "Transact: every normal and panicking path (steps may return nil, an error, or panic with any value including nil) ends with exactly one of commit/rollback after a successful begin, commit iff every step succeeded, no step after the first failure, nil only after commit, never exits by panic; nothing begun for an empty list", "4/C18",
          "trusted: gorm Begin/Commit/Rollback extern contracts (ghost counters, no panic), step contract (any outcome). Not decided: Combine (returns a closure), database behaviour."),
+ "C19": ("proof", "vcode: the cache key used by VerifySMSCode equals the one SendSMSCode stored under (uninterpreted Sprintf: same format and arguments); checkSend refuses inside the minimum interval and beyond the per-window count, opens a new window after the counter duration and accepts below the limit; checkVerify counts every attempt and succeeds iff attempts <= limit, code and hash match and the code is within its lifetime, with the specific error otherwise; updateSend resets the attempts; genNonceStr returns `length` characters of the alphabet and asks the random source for the full alphabet range (every character can occur, no Intn(0))", "4/C19",
+         "trusted: time.Now/Sub externs (clock constant within a call), Sprintf as uninterpreted function, strings.Builder ghost, random source contract, cache facade records its key, counters below 2^62. Not decided: SendSMSCode/VerifySMSCode end-to-end over the cache contents, mock-mode code length, the send-count boundary value (left open by the statement)."),
  "C20": ("proof", "exact-or-error for the UnmarshalJSON of JsInt64, JsUInt64, JsByte (+FromString), JsUnixTime, JsNanoTime, UnixStamp, Duration: if decoding succeeds the token is a quoted string (or, for JsInt64, a bare numeral) whose content is a numeral and the stored value is exactly its value (bytes in 0..255, no wrap); never panics on well-formed tokens", "4/C20",
          "trusted: strconv/strings/time parsing externs over opaque numeral predicates, well-formed JSON token precondition. Not decided: encode->decode round trip as one lemma per type, Scan/Value pairs, base64 and hex helpers."),
 }
@@ -36,7 +38,6 @@ NOT_YET = {
  "C11": "tex.Buffer contracts not built yet",
  "C15": "mux worker contracts not built yet",
  "C16": "stcp session contracts not built yet (goroutines/network: only thin safety clauses are within reach)",
- "C19": "vcode contracts (string model) not built yet",
 }
 import os, re
 hooks = subprocess.run(["git", "-C", "/repo", "log", "--format=%h %s"], capture_output=True, text=True).stdout.splitlines()
